@@ -1,5 +1,6 @@
 import Utv.Lemmas.C15Main
 import Utv.Lemmas.C15Names
+import Utv.Lemmas.C15Build5
 /-!
 C15 — types built from a JSON Schema never crash nor emit what the schema forbids.
 
@@ -281,6 +282,7 @@ def N0 : Names := ⟨fun _ => true, ["items", "keys", "copy"], fun _ => "_1"⟩
 def R0 : Rx := ⟨fun _ _ => true, fun _ _ => true⟩
 def C0 : Ctx := ⟨R0.search, fun _ _ => false⟩
 
+
 /-- `{"oneOf": [{"maxLength": 2}, {"type": "integer"}]}`: built as `Rule[str](max_length=2) ^ int`; 5 is accepted by
 exactly one branch *type*, but both branch *schemas* validate 5 (maxLength says nothing about numbers) -/
 def witnessSchema : Json := .obj [("oneOf", .arr [.obj [("maxLength", .num ⟨2, 0⟩)], .obj [("type", .str "integer")]])]
@@ -342,6 +344,83 @@ theorem C15_contract_maxprops_witness :
     conforms R0 (.data [.mk "a" "a" .any false []] .free .any none (some ⟨0, 0⟩)) (.obj [("a", .num ⟨1, 0⟩)]) = false ∧
     KnownDefect.maxPropsZero (.data [.mk "a" "a" .any false []] .free .any none (some ⟨0, 0⟩)) = true := by
   refine ⟨by decide, by decide⟩
+
+/-! ### building succeeds
+
+Full statement (false of `Rule` as it stands, see `C15_degenerate_witness`):
+
+    theorem C15_builds : inFragment s → (parse N s).isSome
+
+What holds: the same outside the decidable predicate `KnownDefect.degenerate` — the constraint sets `Rule` refuses to
+declare (an inclusive next to an exclusive bound, lower ≥ upper, int next to float bound, a float bound on a Decimal,
+an upper size bound of 0 or below the lower one, a closed tuple with its own size bounds, a const that is not an
+instance of the class built for the type). -/
+
+/-- the induction hypotheses a member value carries for building -/
+def DeepBuilds (N : Names) (v : Json) : Prop :=
+  SubBuilds N v ∧ (match v with
+    | .arr ss => ∀ s ∈ ss, SubBuilds N s
+    | .obj ps => ∀ p ∈ ps, SubBuilds N p.2
+    | _ => True)
+
+mutual
+theorem builds_json (N : Names) : (s : Json) → SubBuilds N s
+  | .obj kvs =>
+    obj_builds N kvs
+      (fun k v hm => (builds_members N kvs k v hm).1)
+      (fun k ss hm => (builds_members N kvs k (.arr ss) hm).2)
+      (fun k ps hm => (builds_members N kvs k (.obj ps) hm).2)
+  | .null => fun hf => by simp [inFragment] at hf
+  | .bool _ => fun hf => by simp [inFragment] at hf
+  | .num _ => fun hf => by simp [inFragment] at hf
+  | .str _ => fun hf => by simp [inFragment] at hf
+  | .arr _ => fun hf => by simp [inFragment] at hf
+termination_by structural s => s
+theorem builds_members (N : Names) : (kws : List (String × Json)) → ∀ k v, (k, v) ∈ kws → DeepBuilds N v
+  | [], k, v, hm => by simp at hm
+  | (k', v') :: rest, k, v, hm =>
+    (List.mem_cons.mp hm).elim
+      (fun h =>
+        have hv : v = v' := (Prod.mk.inj h).2
+        hv ▸ ⟨builds_json N v', match v' with
+          | .arr ss => builds_list N ss
+          | .obj ps => builds_props N ps
+          | .null => trivial
+          | .bool _ => trivial
+          | .num _ => trivial
+          | .str _ => trivial⟩)
+      (fun h => builds_members N rest k v h)
+termination_by structural kws => kws
+theorem builds_list (N : Names) : (ss : List Json) → ∀ s ∈ ss, SubBuilds N s
+  | [], s, hm => by simp at hm
+  | s' :: rest, s, hm =>
+    (List.mem_cons.mp hm).elim
+      (fun h => h ▸ builds_json N s')
+      (fun h => builds_list N rest s h)
+termination_by structural ss => ss
+theorem builds_props (N : Names) : (ps : List (String × Json)) → ∀ p ∈ ps, SubBuilds N p.2
+  | [], p, hm => by simp at hm
+  | (n, s') :: rest, p, hm =>
+    (List.mem_cons.mp hm).elim
+      (fun h => h ▸ builds_json N s')
+      (fun h => builds_props N rest p h)
+termination_by structural ps => ps
+end
+
+theorem C15_builds_partial (N : Names) (s : Json) (hf : inFragment s = true) (hk : KnownDefect.degenerate s = false) :
+    (parse N s).isSome = true :=
+  builds_json N s hf hk
+
+/-- `{"type": "integer", "minimum": 3, "maximum": 3}` — satisfiable (by 3), in the fragment, and `Rule` refuses it
+("lt/le must > gt/ge") -/
+theorem C15_degenerate_witness :
+    inFragment (.obj [("type", .str "integer"), ("minimum", .num ⟨3, 0⟩), ("maximum", .num ⟨3, 0⟩)]) = true ∧
+    parse N0 (.obj [("type", .str "integer"), ("minimum", .num ⟨3, 0⟩), ("maximum", .num ⟨3, 0⟩)]) = none ∧
+    validate C0 (.obj [("type", .str "integer"), ("minimum", .num ⟨3, 0⟩), ("maximum", .num ⟨3, 0⟩)]) (.num ⟨3, 0⟩) = true ∧
+    KnownDefect.degenerate (.obj [("type", .str "integer"), ("minimum", .num ⟨3, 0⟩), ("maximum", .num ⟨3, 0⟩)]) = true := by
+  refine ⟨by decide, rfl, by decide, by decide⟩
+
+example : KnownDefect.degenerate sampleSchema = false := by decide
 
 /-! ### attribute names -/
 
